@@ -2,6 +2,8 @@ package main
 
 func controlsC18() []Control {
 	return []Control{
+		{Name: "every view cancels the planned move", Expect: "R7", Mutate: replaceIn("(*botRunner).UpdateTableState", "\tbr.tableInfo = table\n", "\tbr.tableInfo = table\n\tbr.timebank.Cancel()\n", 0)},
+		{Name: "bot time bank re-created when the runner is attached", Expect: "R7", Mutate: replaceIn("(*botRunner).SetActor", "\tbr.actor = a\n", "\tbr.actor = a\n\tbr.timebank = timebank.NewTimeBank()\n", 0)},
 		{Name: "bot bets more than its stack", Expect: "R4", Mutate: replaceIn("(*botRunner).requestAI", "return br.actions.Bet(player.InitialStackSize)", "return br.actions.Bet(player.InitialStackSize + 1)", 0)},
 		{Name: "bot calls without being allowed to", Expect: "R1", Mutate: replaceIn("(*botRunner).requestMove", "if gs.HasAction(playerIdx, \"ready\") {\n\t\treturn br.actions.Ready()", "if gs.HasAction(playerIdx, \"ready\") {\n\t\treturn br.actions.Call()", 0)},
 		{Name: "bot acts twice on one path", Expect: "R3", Mutate: replaceIn("(*botRunner).requestAI", "\t\terr := br.actions.Check()\n", "\t\tbr.actions.Check()\n\t\terr := br.actions.Check()\n", 0)},
